@@ -70,10 +70,12 @@ def compare(payload, w, m, what="decode"):
     if en != gn:
         missing = [k for k in en if k not in set(gn)]
         extra = [k for k in gn if k not in set(en)]
-        if missing or extra:
+        if missing or extra or len(gn) != len(set(gn)):
             raise Fail(f"{what}-attribute-names", f"{w.ident}: missing {missing[:6]} extra {extra[:6]} payload {payload.hex()[:120]}")
-        raise Fail(f"{what}-attribute-order", f"{w.ident}: expected order {en[:12]}.. got {gn[:12]}.. payload {payload.hex()[:120]}")
-    for (k, ev), (_, gv) in zip(exp, got):
+        # same names in another order: the statement does not fix an order, so this is not a violation
+    gd = dict(got)
+    for k, ev in exp:
+        gv = gd[k]
         if isinstance(ev, Derived):
             continue
         if ev != gv or isinstance(ev, str) != isinstance(gv, str):
